@@ -49,7 +49,7 @@ fn norm(v: &Value) -> Value {
 
 /// FEEL expressions for the TCK / JSON value grid: 32 scalars of every kind and the lists / contexts built from them (depth 2)
 fn value_grid(odd_key: bool) -> Vec<String> {
-  let scalars: Vec<&str> = vec![r#""""#, r#""a""#, r#""ż \"q\" \\ end""#, r#""line\nbreak""#, r#""tab\tand \u0001 control""#, "0", "1", "-1", "1.5", "0.1", "100", "12345678901234567890.123456789", "0.000001", "-0.5", "10 ** 30",
+  let scalars: Vec<&str> = vec![r#""""#, r#""a""#, r#"" padded ""#, r#""line\n""#, r#"" ""#, r#""\ttab""#, r#""ż \"q\" \\ end""#, r#""line\nbreak""#, r#""tab\tand \u0001 control""#, "0", "1", "-1", "1.5", "0.1", "100", "12345678901234567890.123456789", "0.000001", "-0.5", "10 ** 30",
     "true", "false", "null", r#"date("2020-02-29")"#, r#"date("0044-03-15")"#, r#"time("10:11:12")"#, r#"time("10:11:12.5Z")"#, r#"time("10:11:12+02:00")"#, r#"time("23:59:59-00:30")"#,
     r#"date and time("2020-01-02T03:04:05")"#, r#"date and time("2020-01-02T03:04:05Z")"#, r#"date and time("2020-01-02T03:04:05.25+01:00")"#,
     r#"duration("P1Y2M")"#, r#"duration("-P11M")"#, r#"duration("P1DT2H3M4S")"#, r#"duration("-PT0.5S")"#, r#"duration("P0D")"#];
@@ -87,14 +87,111 @@ fn json_matches(v: &Value, j: &serde_json::Value) -> bool {
 }
 
 fn model(ns: &str, name: &str) -> dmntk_model::model::Definitions {
+  // a model whose name starts with `bad` parses but does not build (its decision logic is not a FEEL expression)
+  let logic = if name.starts_with("bad") { "1 +* (" } else { "\"Hello\"" };
   let xml = format!(r#"<?xml version="1.0" encoding="UTF-8"?>
 <definitions namespace="{}" name="{}" id="_d1" xmlns="https://www.omg.org/spec/DMN/20191111/MODEL/">
   <decision name="Greeting Message" id="_dec1">
     <variable typeRef="string" name="Greeting Message"/>
-    <literalExpression><text>"Hello"</text></literalExpression>
+    <literalExpression><text>{}</text></literalExpression>
   </decision>
-</definitions>"#, ns, name);
+</definitions>"#, ns, name, logic.replace('"', "&quot;"));
   dmntk_model::parse(&xml).unwrap()
+}
+
+fn model_xml(ns: &str, name: &str) -> String {
+  let logic = if name.starts_with("bad") { "1 +* (" } else { "\"Hello\"" };
+  format!(r#"<?xml version="1.0" encoding="UTF-8"?>
+<definitions namespace="{}" name="{}" id="_d1" xmlns="https://www.omg.org/spec/DMN/20191111/MODEL/">
+  <description>model {}</description>
+  <decision name="Greeting Message" id="_dec1">
+    <variable typeRef="string" name="Greeting Message"/>
+    <literalExpression><text>{}</text></literalExpression>
+  </decision>
+</definitions>"#, ns, name, name, logic.replace('"', "&quot;"))
+}
+
+fn base64(bytes: &[u8]) -> String {
+  const T: &[u8; 64] = b"ABCDEFGHIJKLMNOPQRSTUVWXYZabcdefghijklmnopqrstuvwxyz0123456789+/";
+  let mut out = String::new();
+  for chunk in bytes.chunks(3) {
+    let b = [chunk[0], *chunk.get(1).unwrap_or(&0), *chunk.get(2).unwrap_or(&0)];
+    let n = ((b[0] as u32) << 16) | ((b[1] as u32) << 8) | b[2] as u32;
+    out.push(T[(n >> 18) as usize & 63] as char);
+    out.push(T[(n >> 12) as usize & 63] as char);
+    out.push(if chunk.len() > 1 { T[(n >> 6) as usize & 63] as char } else { '=' });
+    out.push(if chunk.len() > 2 { T[n as usize & 63] as char } else { '=' });
+  }
+  out
+}
+
+/// one HTTP request to the real service on the loopback port; answers `status:json|notjson:data|errors|neither:detail`
+fn http_request(port: u16, token: &str) -> String {
+  use std::io::{Read, Write};
+  let (cmd, rest) = match token.split_once(':') { Some((c, r)) => (c, r), None => (token, "") };
+  let (a, b) = rest.split_once(',').unwrap_or((rest, ""));
+  let content = |xml: &[u8]| format!("{{\"content\":\"{}\"}}", base64(xml));
+  let mut invalid_utf8 = model_xml(a, b).into_bytes();
+  if let Some(pos) = invalid_utf8.windows(6).position(|w| w == b"model ") { invalid_utf8[pos] = 0xFF; }   // inside the description text: the XML stays well formed
+  let (method, path, body): (&str, String, String) = match cmd {
+    "clear" => ("POST", "/definitions/clear".to_string(), String::new()),
+    "deploy" => ("POST", "/definitions/deploy".to_string(), String::new()),
+    "add" => ("POST", "/definitions/add".to_string(), content(model_xml(a, b).as_bytes())),
+    "replace" => ("POST", "/definitions/replace".to_string(), content(model_xml(a, b).as_bytes())),
+    "remove" => ("POST", "/definitions/remove".to_string(), format!("{{\"namespace\":\"{}\",\"name\":\"{}\"}}", a, b)),
+    "eval" => ("POST", format!("/evaluate/{}/Greeting%20Message", rest), "{}".to_string()),
+    "tck" => ("POST", "/tck/evaluate".to_string(), format!("{{\"model\":\"{}\",\"invocable\":\"Greeting Message\",\"input\":[]}}", rest)),
+    // malformed requests (rest = add | replace | remove where it matters)
+    "badjson" => ("POST", format!("/definitions/{}", rest), "{\"content\": ".to_string()),
+    "nocontent" => ("POST", format!("/definitions/{}", rest), "{}".to_string()),
+    "badb64" => ("POST", format!("/definitions/{}", a), "{\"content\":\"!!! this is not base64 !!!\"}".to_string()),
+    "badutf8" => ("POST", format!("/definitions/{}", cmd_target(rest)), content(&{ let mut t = model_xml(target_ns(rest), target_name(rest)).into_bytes(); if let Some(pos) = t.windows(6).position(|w| w == b"model ") { t[pos] = 0xFF; } t })),
+    "badxml" => ("POST", format!("/definitions/{}", a), content(b"<definitions")),
+    "unknowneval" => ("POST", "/evaluate/no-such-model/Greeting%20Message".to_string(), "{}".to_string()),
+    "unknowninvocable" => ("POST", format!("/evaluate/{}/NoSuchDecision", rest), "{}".to_string()),
+    "badcontext" => ("POST", format!("/evaluate/{}/Greeting%20Message", rest), "{ this is : not a context".to_string()),
+    "tckempty" => ("POST", "/tck/evaluate".to_string(), "{}".to_string()),
+    "notfound" => ("GET", "/no/such/endpoint".to_string(), String::new()),
+    _ => ("GET", "/system/info".to_string(), String::new()),
+  };
+  let _ = invalid_utf8;
+  let mut stream = match std::net::TcpStream::connect(("127.0.0.1", port)) { Ok(s) => s, Err(_) => return "noconnection".to_string() };
+  let _ = stream.set_read_timeout(Some(std::time::Duration::from_secs(10)));
+  let req = format!("{} {} HTTP/1.1\r\nHost: verif\r\nConnection: close\r\nContent-Type: application/json\r\nContent-Length: {}\r\n\r\n", method, path, body.len());
+  if stream.write_all(req.as_bytes()).is_err() || stream.write_all(body.as_bytes()).is_err() { return "noanswer".to_string(); }
+  let mut raw: Vec<u8> = vec![];
+  let _ = stream.read_to_end(&mut raw);
+  let text = String::from_utf8_lossy(&raw).to_string();
+  let status = text.split_whitespace().nth(1).unwrap_or("000").to_string();
+  let payload = match text.split_once("\r\n\r\n") { Some((_, p)) => p.to_string(), None => String::new() };
+  match serde_json::from_str::<serde_json::Value>(&payload) {
+    Ok(doc) => {
+      let errors = doc.get("errors").and_then(|e| e.as_array()).map(|a| !a.is_empty()).unwrap_or(false);
+      let data = doc.get("data");
+      let kind = if errors { "errors" } else if data.is_some() { "data" } else { "neither" };
+      let detail = if errors { String::new() } else { data.map(|d| d.to_string()).unwrap_or_default() };
+      format!("{}:json:{}:{}", status, kind, detail.replace('|', "/").replace(' ', "_"))
+    }
+    Err(_) => format!("{}:notjson::{}", status, payload.chars().take(60).collect::<String>().replace('|', "/").replace(' ', "_")),
+  }
+}
+fn cmd_target(rest: &str) -> &str { rest.split('/').next().unwrap_or("add") }
+fn target_ns(rest: &str) -> &str { rest.split('/').nth(1).and_then(|x| x.split(',').next()).unwrap_or("n1") }
+fn target_name(rest: &str) -> &str { rest.split('/').nth(1).and_then(|x| x.split(',').nth(1)).unwrap_or("a") }
+
+/// one workspace operation on the real Workspace: add:<ns>,<name>  remove:<ns>,<name>  replace:<ns>,<name>  clear  deploy  eval:<name>
+fn workspace_op(ws: &mut dmntk_workspace::Workspace, op: &str) -> String {
+  let (cmd, rest) = match op.split_once(':') { Some((c, r)) => (c, r), None => (op, "") };
+  let (ns, name) = rest.split_once(',').unwrap_or((rest, ""));
+  match cmd {
+    "add" => if ws.add(model(ns, name)).is_ok() { "ok".to_string() } else { "err".to_string() },
+    "replace" => if ws.replace(model(ns, name)).is_ok() { "ok".to_string() } else { "err".to_string() },
+    "remove" => { ws.remove(ns, name); "()".to_string() }
+    "clear" => { ws.clear(); "()".to_string() }
+    "deploy" => if ws.deploy().is_ok() { "ok".to_string() } else { "err".to_string() },
+    "eval" => if ws.evaluate_invocable(rest, "Greeting Message", &dmntk_feel::context::FeelContext::default()).is_ok() { "ok".to_string() } else { "err".to_string() },
+    _ => "?".to_string(),
+  }
 }
 
 fn main() {
@@ -135,6 +232,40 @@ fn main() {
         };
         println!("{} => {}", op, out);
       }
+    }
+    Some("http") => {
+      // http <file>: BOUNDED stand-in (not a proof) for C18 end to end: the real service (dmntk_server::start_server) is started on a
+      // loopback port; each line of the file is a sequence of request tokens (see http_request) sent one after the other, each on its
+      // own connection, the first one always being `clear`; prints one line per sequence with the answers joined by `|`.
+      let port = { let l = std::net::TcpListener::bind(("127.0.0.1", 0)).expect("bind"); l.local_addr().unwrap().port() };
+      let p2 = port.to_string();
+      std::thread::spawn(move || { let _ = actix_web::rt::System::new("verif").block_on(dmntk_server::start_server(Some("127.0.0.1".to_string()), Some(p2), None)); });
+      let mut up = false;
+      for _ in 0..100 { if std::net::TcpStream::connect(("127.0.0.1", port)).is_ok() { up = true; break; } std::thread::sleep(std::time::Duration::from_millis(100)); }
+      if !up { println!("SERVER-DID-NOT-START"); std::process::exit(0); }
+      let text = std::fs::read_to_string(&args[2]).unwrap_or_default();
+      let mut out = String::new();
+      for line in text.lines() {
+        let answers: Vec<String> = line.split_whitespace().map(|t| http_request(port, t)).collect();
+        out.push_str(&answers.join("|")); out.push('\n');
+      }
+      print!("{}", out);
+      std::process::exit(0);
+    }
+    Some("workspacebatch") => {
+      // workspacebatch <file>: each line is a sequence of workspace operations separated by blanks, run on a fresh Workspace;
+      // prints one line per sequence: the answers joined by `|` (or PANIC)
+      let text = std::fs::read_to_string(&args[2]).unwrap_or_default();
+      let mut out = String::new();
+      for line in text.lines() {
+        let l = line.to_string();
+        let r = std::panic::catch_unwind(move || {
+          let mut ws = dmntk_workspace::Workspace::new(None);
+          l.split_whitespace().map(|op| workspace_op(&mut ws, op)).collect::<Vec<String>>().join("|")
+        }).unwrap_or("PANIC".to_string());
+        out.push_str(&r); out.push('\n');
+      }
+      print!("{}", out);
     }
     Some("strbif") => {
       // BOUNDED stand-in (not a proof): substring before / substring after / contains / starts with / ends with over all
